@@ -320,10 +320,8 @@ def _check_normalisers(ctx: Ctx) -> None:
                 # symbol N<k> of that block, so `B * sqrt(iPu) / ||B||_F` is recognised however the pieces were named
                 from ..astutil import expand
                 import copy as _copy
-                seq_defs = {}
-                for x in l.body:
-                    if isinstance(x, ast.Assign) and len(x.targets) == 1 and isinstance(x.targets[0], ast.Name):
-                        seq_defs[x.targets[0].id] = expand(x.value, dict(seq_defs))
+                from ..astutil import sequential_defs
+                seq_defs = sequential_defs(l.body[:l.body.index(st[0])] if st[0] in l.body else l.body)
                 full = expand(st[0].value, seq_defs)
                 blocks_: Dict[str, str] = {}
 
